@@ -62,6 +62,9 @@ type Ingress struct {
 
 var nsnameLists = map[string][]nsname.NSName{}
 
+var sharedLS = &metav1.LabelSelector{}
+var selBuilds int
+
 // labelIs(v) accepts the objects whose label l is v; (fn 10+k) is labelIs(k).
 func labelIs(v string) func(metav1.Object) bool {
 	return func(o metav1.Object) bool { return o.GetLabels()["l"] == v }
@@ -201,10 +204,27 @@ func (t Term) Build() filter.Filter {
 	case "labels":
 		return filter.Labels(t.Map)
 	case "labelsel":
-		return filter.LabelSelector(t.LS.build())
+		if t.LS == nil {
+			return filter.LabelSelector(nil)
+		}
+		// like a caller that reuses one selector variable: every build passes the SAME address, with new content
+		*sharedLS = *t.LS.build()
+		return filter.LabelSelector(sharedLS)
 	case "sel":
-		if t.Sel == "nothing" {
+		switch t.Sel {
+		case "nothing":
 			return filter.Selector(labels.Nothing())
+		case "everything-nil":
+			// the nil requirement slice: matches everything, but is not DeepEqual to Everything()
+			selBuilds++
+			if selBuilds%2 == 0 {
+				s, err := labels.Parse("")
+				if err != nil {
+					panic(err)
+				}
+				return filter.Selector(s)
+			}
+			return filter.Selector(labels.NewSelector())
 		}
 		return filter.Selector(labels.Everything())
 	case "fn":
